@@ -1,138 +1,47 @@
 (* Tie/Tie_C03.v — the bodies of option / multi_option / toggle :: update_value / prepare / check, as read from
    src/options/*.cpp by gen/tr_objects.py (clang AST, every run), compute exactly the model's functions, FOR ALL states,
    declarations, environments and tokens.  These nine functions hold the source ranking of C03, the counting and reversal
-   rules of C11 and the reset of C14; the refinement theorem (parse_refines) is about the model functions on the right-hand sides. *)
+   rules of C11 and the reset of C14; the refinement theorem (parse_refines) is about the model functions on the right-hand sides.
+   Every proof is the symbolic executor `obj_run` (Opt/ObjLangFacts.v): it runs the translated body, splitting on each condition,
+   so an equivalent re-arrangement of a body (nested instead of conjoined conditions, early return instead of else, …) still proves. *)
 From Coq Require Import List Arith Bool ZArith Lia.
 From Coq Require Import Init.Byte.
 From Nitro Require Import Base.Bytes Base.Res Opt.Token Opt.Decl Opt.ParserModel Opt.ObjLang Opt.ObjLangFacts Gen.GenObjects.
 Import ListNotations.
 Local Open Scope list_scope.
 
-Lemma env_get_no_env c : has_env_b c = false -> env_get (x_getenv c) (x_env c) = [].
-Proof. unfold has_env_b, env_get. destruct (x_env c) as [[|b n]|]; [reflexivity | discriminate | reflexivity]. Qed.
-
 (* ---------------- option ---------------- *)
 Theorem Tie_C03_option_update_value : forall c s,
   view ost_of (exec c gen_option_update_value s) = Some (opt_update_g (ost_of s) (x_arg c)).
-Proof.
-  intros c s. unfold gen_option_update_value, opt_update_g. cbn.
-  destruct (q_val s); [reflexivity|]. cbn.
-  destruct (tok_value (x_arg c)); reflexivity.
-Qed.
+Proof. intros c s. unfold gen_option_update_value, opt_update_g. obj_run. Qed.
 
 Theorem Tie_C03_option_prepare : forall c s, view ost_of (exec c gen_option_prepare s) = Some (Ok fresh_o).
-Proof. reflexivity. Qed.
+Proof. intros c s. unfold gen_option_prepare, fresh_o. obj_run. Qed.
 
 Theorem Tie_C03_option_check : forall c s,
   view ost_of (exec c gen_option_check s) = Some (check_opt (x_getenv c) (odecl_of c) (ost_of s)).
-Proof.
-  intros c s. unfold gen_option_check, check_opt. cbn.
-  destruct (q_val s) as [v|]; [reflexivity|]. cbn.
-  destruct (has_env_b c) eqn:He; cbn.
-  - destruct (nonempty (env_get (x_getenv c) (x_env c))); cbn; [reflexivity|].
-    destruct (x_def_o c); cbn; [reflexivity|]. destruct (x_optional c); reflexivity.
-  - rewrite (env_get_no_env c He). cbn.
-    destruct (x_def_o c); cbn; [reflexivity|]. destruct (x_optional c); reflexivity.
-Qed.
+Proof. intros c s. unfold gen_option_check, check_opt. obj_run. Qed.
 
 (* ---------------- multi_option ---------------- *)
 Theorem Tie_C03_multi_update_value : forall c s,
   view mst_of (exec c gen_multi_option_update_value s) = Some (multi_update_g (mst_of s) (x_arg c)).
-Proof.
-  intros c s. unfold gen_multi_option_update_value, multi_update_g. cbn.
-  destruct (tok_value (x_arg c)); reflexivity.
-Qed.
+Proof. intros c s. unfold gen_multi_option_update_value, multi_update_g. obj_run. Qed.
 
 Theorem Tie_C03_multi_prepare : forall c s, view mst_of (exec c gen_multi_option_prepare s) = Some (Ok fresh_m).
-Proof. reflexivity. Qed.
-
-(* the getline loop: every piece is pushed, dirty_ is set as soon as there is one *)
-Lemma each_line_spec c : forall pieces s, exists s',
-  each_exec c [SAssignDirty true; SVecPushElem] pieces s = ONormal s' /\ q_vec s' = q_vec s ++ pieces /\
-  q_dirty s' = (match pieces with [] => q_dirty s | _ => true end).
-Proof.
-  induction pieces as [|p r IH]; intros s.
-  - exists s. cbn. rewrite app_nil_r. repeat split; reflexivity.
-  - cbn. destruct (IH (set_vec (set_dirty (set_elem s p) true) (q_vec s ++ [p]))) as (s' & E & Hv & Hd).
-    exists s'. cbn in *. rewrite E. repeat split; auto.
-    + rewrite Hv, <- app_assoc. reflexivity.
-    + rewrite Hd. destruct r; reflexivity.
-Qed.
-
-Lemma getlines_nonempty sep : forall s cur started, (started = true \/ s <> []) -> getlines sep s cur started <> [].
-Proof.
-  induction s as [|ch r IH]; intros cur started H; cbn.
-  - destruct H as [->|H]; [discriminate | congruence].
-  - destruct (beq ch sep); [discriminate|]. apply IH. left. reflexivity.
-Qed.
+Proof. intros c s. unfold gen_multi_option_prepare, fresh_m. obj_run. Qed.
 
 Theorem Tie_C03_multi_check : forall c s,
   view mst_of (exec c gen_multi_option_check s) = Some (check_multi (x_getenv c) (mdecl_of c) (mst_of s)).
-Proof.
-  intros c s. unfold gen_multi_option_check, check_multi.
-  rewrite exec_cons, exec1_if. cbn [evalb mst_of ms_val ms_dirty].
-  destruct (q_vec s) as [|v l] eqn:Ev; [|reflexivity].
-  rewrite exec_cons, exec1_if. cbn [evalb mdecl_of m_env m_def m_opt].
-  destruct (has_env_b c) eqn:He.
-  - rewrite exec_cons. cbn [exec1]. rewrite exec_cons, exec1_if. cbn [evalb set_envv q_envv].
-    set (ev := env_get (x_getenv c) (x_env c)).
-    destruct (nonempty ev) eqn:Ne; cbn [negb].
-    + rewrite exec_cons, exec1_for. cbn [set_envv q_envv].
-      destruct (each_line_spec c (getlines x3b ev [] false) (set_envv s ev)) as (s' & E & Hv & Hd).
-      rewrite E. cbn. unfold mst_of. cbn in Hv. rewrite Hv, Ev, Hd. cbn.
-      assert (Hn : getlines x3b ev [] false <> []) by (apply getlines_nonempty; right; destruct ev; [discriminate | discriminate]).
-      destruct (getlines x3b ev [] false); [congruence | reflexivity].
-    + cbn. destruct (x_def_m c); cbn; [rewrite ?Ev; reflexivity|]. destruct (x_optional c); cbn; rewrite ?Ev; reflexivity.
-  - cbn. fold (env_get (x_getenv c) (x_env c)). rewrite (env_get_no_env c He). cbn.
-    destruct (x_def_m c); cbn; [rewrite ?Ev; reflexivity|]. destruct (x_optional c); cbn; rewrite ?Ev; reflexivity.
-Qed.
+Proof. intros c s. unfold gen_multi_option_check, check_multi. obj_run. Qed.
 
 (* ---------------- toggle ---------------- *)
-Local Arguments has_prefix : simpl never.
-Local Arguments has_value : simpl never.
-Local Arguments is_short : simpl never.
-Local Arguments name_without_prefix : simpl never.
-Local Arguments as_short_list : simpl never.
-Local Arguments seq_eqb : simpl never.
-Local Arguments count_short : simpl never.
-Local Arguments nonempty : simpl never.
-Local Arguments env_get : simpl never.
-Local Arguments parse_env_word : simpl never.
-Local Arguments Z.add : simpl never.
-Local Arguments Z.eqb : simpl never.
-
 Theorem Tie_C03_toggle_update_value : forall c s,
   view tst_of (exec c gen_toggle_update_value s) = Some (toggle_update_g (tdecl_of c) (tst_of s) (x_arg c)).
-Proof.
-  intros c s. unfold gen_toggle_update_value, toggle_update_g. cbn.
-  destruct (has_value (x_arg c)); [reflexivity|]. cbn.
-  destruct (has_prefix (x_arg c)); cbn.
-  - destruct (name_without_prefix (x_arg c)) as [n|er]; cbn; [|reflexivity].
-    destruct (seq_eqb n (x_name c)); cbn.
-    + destruct (x_rev c); cbn; [|reflexivity].
-      destruct (q_dirty s); cbn; [|reflexivity]. destruct (q_given s =? 0)%Z; reflexivity.
-    + destruct (q_dirty s); cbn.
-      * destruct (q_given s =? 0)%Z; cbn; [reflexivity|].
-        destruct (is_short (x_arg c)); cbn; [destruct (as_short_list (x_arg c)); reflexivity | reflexivity].
-      * destruct (is_short (x_arg c)); cbn; [destruct (as_short_list (x_arg c)); reflexivity | reflexivity].
-  - destruct (q_dirty s); cbn.
-    + destruct (q_given s =? 0)%Z; cbn; [reflexivity|].
-      destruct (is_short (x_arg c)); cbn; [destruct (as_short_list (x_arg c)); reflexivity | reflexivity].
-    + destruct (is_short (x_arg c)); cbn; [destruct (as_short_list (x_arg c)); reflexivity | reflexivity].
-Qed.
+Proof. intros c s. unfold gen_toggle_update_value, toggle_update_g. obj_run. Qed.
 
 Theorem Tie_C03_toggle_prepare : forall c s, view tst_of (exec c gen_toggle_prepare s) = Some (Ok fresh_t).
-Proof. reflexivity. Qed.
+Proof. intros c s. unfold gen_toggle_prepare, fresh_t. obj_run. Qed.
 
 Theorem Tie_C03_toggle_check : forall c s,
   view tst_of (exec c gen_toggle_check s) = Some (check_toggle (x_tr c) (x_fa c) (x_getenv c) (tdecl_of c) (tst_of s)).
-Proof.
-  intros c s. unfold gen_toggle_check, check_toggle. cbn.
-  destruct (has_env_b c) eqn:He; cbn.
-  - destruct (q_dirty s) eqn:Ed; cbn; [rewrite ?Ed; cbn; unfold tst_of; cbn; rewrite ?Ed; reflexivity|].
-    destruct (nonempty (env_get (x_getenv c) (x_env c))); cbn.
-    + destruct (parse_env_word (x_tr c) (x_fa c) (env_get (x_getenv c) (x_env c))) as [[|]|]; reflexivity.
-    + rewrite ?Ed; cbn; unfold tst_of; cbn; rewrite ?Ed; reflexivity.
-  - destruct (q_dirty s) eqn:Ed; cbn; [rewrite ?Ed; cbn; unfold tst_of; cbn; rewrite ?Ed; reflexivity|].
-    rewrite (env_get_no_env c He). cbn. rewrite ?Ed; cbn; unfold tst_of; cbn; rewrite ?Ed; reflexivity.
-Qed.
+Proof. intros c s. unfold gen_toggle_check, check_toggle. obj_run. Qed.
